@@ -8,7 +8,7 @@ from ..poly import Poly, ZERO, ONE
 from ..forms import (value_poly, check_accumulate, nests_of, real_guards, short, scalar_accumulations, scalar_resets, acc_name_of, is_zero_test,
                      is_full_range)
 from .. import wire
-from ..model import norm_text, AnchorMissing
+from ..model import canon_src, norm_text, AnchorMissing
 from ..controls import Control
 from ..mutate import in_func
 
@@ -92,8 +92,8 @@ def wtilde_value_rule(ctx, p, K):
     def allowed(c, b):
         yy, xx = pos(b)
         v = E_("value_native", yy, xx)
-        if c.kind == "cmp" and c.args[0] == v and c.args[1] == ">" and c.args[2] == ZERO:
-            return True  # domain guard on the divisor
+        if c.kind == "cmp" and c.args[0] == ZERO and c.args[1] == "<" and c.args[2] == v:
+            return True  # domain guard on the divisor: value > 0 (comparisons are stored oriented to < / <=)
         k1y, k1x = b["ky"] + dy, b["kx"] + dx
         if c.kind == "cmp":
             a, op, r = c.args
@@ -136,7 +136,7 @@ def _shortcut_part(c, dy, dx):
     a, op, r = c.args
     for d, k in ((dy, 0), (dx, 1)):
         h2 = TWO * half(k)
-        if a == d and ((op == "<" and r == -h2) or (op == ">" and r == h2)):
+        if (a == d and op == "<" and r == -h2) or (a == h2 and op == "<" and r == d):  # d < -2h  or  d > 2h (stored as 2h < d)
             return True
     return False
 
@@ -336,7 +336,7 @@ def diag_rule(ctx, p, K):
         br = wire.enclosing_branches(g, c)
         tests = [norm_text(i.test) for i, inbody in br if inbody]
         lst = b.get("no_regularization_index_list")
-        nonempty = any(t.replace(" ", "") in (f"len({lst})>0".replace(" ", ""), f"add_to_curvature_diagandlen({lst})>0".replace(" ", "")) for t in tests)
+        nonempty = lst is not None and any(t in (canon_src(f"len({lst}) > 0"), canon_src(f"add_to_curvature_diag and len({lst}) > 0"), canon_src(f"len({lst}) > 0 and add_to_curvature_diag"), canon_src(f"len({lst}) != 0")) for t in tests)
         val_ok = b.get("value", "").endswith("no_regularization_add_to_curvature_diag_value")
         lst_ok = lst in ("self.no_regularization_index_list", "no_regularization_index_list")
         ctx.ob(rule, f"{g.key}:diag-call", nonempty and val_ok and lst_ok, where=g, node=c, construct=f"under {tests}; args {b}",
@@ -376,7 +376,8 @@ def blocks_rule(ctx, p, K):
     if ok:
         lo, hi = app[0].args[0].elts
         cname = incs[0][0] if incs else None
-        ok = isinstance(lo, ast.Name) and lo.id == cname and isinstance(hi, ast.BinOp) and isinstance(hi.op, ast.Add) and norm_text(hi.left) == cname and norm_text(hi.right).endswith(".params")
+        ok = isinstance(lo, ast.Name) and lo.id == cname and isinstance(hi, ast.BinOp) and isinstance(hi.op, ast.Add) and sorted([norm_text(hi.left) == cname, norm_text(hi.right) == cname]) == [False, True] \
+            and any(norm_text(x).endswith(".params") for x in (hi.left, hi.right))
         br = wire.enclosing_branches(f, app[0])
         ok = ok and len(br) == 1 and br[0][1] and norm_text(br[0][0].test).startswith("isinstance(") and norm_text(br[0][0].test).endswith(", cls)")
         # append precedes the increment in the loop body
